@@ -301,3 +301,8 @@ def _slice(sample, sl):
     if isinstance(sl, ast.Slice):
         return sample[slice(c(sl.lower), c(sl.upper), c(sl.step))]
     raise ValueError
+
+
+_ADDENDUM = ' Borrowed: R16.1 (keys are spliced through repr: an alias with escapes or quotes is looked up verbatim).'
+EXPLANATION += _ADDENDUM
+LEVEL_TEXT += _ADDENDUM
